@@ -118,6 +118,36 @@ func c12GenSpine(r *fw.RNG) *c12Val {
 	return v
 }
 
+// c12GenDeep wraps a small value that repeats a node (the empty list, a boolean, a
+// string, a sublist) in tens to hundreds of enclosing lists: the printer switches to
+// path tracking from some depth on, and an acyclic value must still print in full.
+func c12GenDeep(r *fw.RNG) *c12Val {
+	rep := fw.Pick(r, []*c12Val{{K: c12KList}, {K: c12KSym, S: "true", Class: "sym:bool"}, {K: c12KStr, S: "s", Class: "str"}, {K: c12KList, Kids: []*c12Val{{K: c12KInt, I: 1, Class: "int"}}}})
+	inner := &c12Val{K: c12KList, Kids: []*c12Val{rep, {K: c12KInt, I: 1, Class: "int"}, rep}}
+	if r.Chance(1, 3) {
+		inner.Kids = append(inner.Kids, c12GenValue(r, 2, nil), rep)
+	}
+	depths := []int{20, 40, 100, 200, 400}
+	for d := 55; d <= 75; d++ {
+		depths = append(depths, d)
+	}
+	for d := 124; d <= 132; d++ {
+		depths = append(depths, d)
+	}
+	var v *c12Val = inner
+	for d := fw.Pick(r, depths); d > 0; d-- {
+		l := &c12Val{K: c12KList, Kids: []*c12Val{v}}
+		if r.Chance(1, 10) {
+			l.Kids = append(l.Kids, rep)
+		}
+		if r.Chance(1, 10) {
+			l.Kids = append([]*c12Val{rep}, l.Kids...)
+		}
+		v = l
+	}
+	return v
+}
+
 func c12RunValues(w *fw.W, r *fw.RNG, idx int) {
 	var rejected []string
 	for j := 0; j < 50; j++ {
@@ -125,6 +155,8 @@ func c12RunValues(w *fw.W, r *fw.RNG, idx int) {
 		switch {
 		case j == 0 && r.Chance(1, 4):
 			v = c12GenSpine(r)
+		case j == 1 && r.Chance(1, 2):
+			v = c12GenDeep(r)
 		case r.Chance(1, 2):
 			v = c12GenAtom(r, &rejected)
 		default:
